@@ -328,6 +328,12 @@ class EvoCmdSuite(ProgBaseSuite):
                         a["arm"] = rng.choice([0, 1, 0, 1, 0, 1, 2, -1])
                     ops.append({"op": "evo_wash", "args": a})
             cases.append({"dev": "evo", "wl": wl, "labware": specs, "ops": ops, "family": "evocmd"})
+        # the same tip twice in different representations, and tips whose numbers descend while their mask values ascend
+        for tps in ([["i", 3], ["t", 3]], [["t", 3], ["i", 3]], [["i", 5], ["t", 4]], [["t", 2], ["i", 2]], [["i", 4], ["t", 3]]):
+            specs = [{"kind": "plate", "name": "P", "rows": 8, "cols": 3, "min": "0", "max": "2000", "init": {"shape": "scalar", "v": "1000"}}]
+            ops = [{"op": "evo_asp", "lw": 0, "wells": {"shape": "list", "v": ["A01", "B01"]}, "grid": 10, "site": 2, "tips": tps,
+                    "volume": {"t": "list", "v": ["10", "41/2"]}, "lc": "Water", "arm": 0, "label": None}]
+            cases.append({"dev": "evo", "wl": wlcfg(random.Random(4), "950"), "labware": specs, "ops": ops, "family": "evocmd"})
         # per-tip volumes that are not a flat list of numbers (oracle-only: the model has no such argument)
         for kind in ("nested", "tuple"):
             for asp in (True, False):
